@@ -62,6 +62,7 @@ SilentHead ==
   /\ LET e == Head(wake) IN
      \/ e.k = "value" /\ (~waiter[e.w].on \/ waiter[e.w].box = NoJob)
      \/ e.k = "evt" /\ fwait[e.w] = NoJob
+     \/ e.k = "kill" /\ conn[e.w] # "closing"          \* the connection has already shut down
      \/ /\ e.k = "value" /\ waiter[e.w].on /\ waiter[e.w].box # NoJob /\ job[waiter[e.w].box].done
         /\ ~PopNow(job, heap, waiter[e.w].chs).found
 (* gevent delivers callbacks only while the loop runs, i.e. between the operations of a batch and
@@ -77,7 +78,7 @@ TrPull     == Op("pull") /\ PullStart(Ev.w, SeqRange(Ev.chs)) /\ PostOK(Ev.post)
 TrDeliver  == /\ ~SilentHead /\ IsEvent("deliver")
               /\ wake # <<>> /\ Head(wake) = [k |-> Ev.k, w |-> Ev.w]
               /\ Deliver /\ PostOK(Ev.post)
-              /\ Ev.k = "value" => Ev.got \in SeqRange(running'[Ev.w])
+              /\ Ev.k = "value" => (Ev.got \in SeqRange(running'[Ev.w]) \/ conn'[Ev.w] = "closed")
 TrQuiet    == ~SilentHead /\ Op("quiet") /\ wake = <<>> /\ UNCHANGED vars /\ PostOK(Ev.post)
 TrFinish   == Op("finish") /\ ( IF Ev.error THEN id2job[Ev.id] = NoJob /\ UNCHANGED vars
                                 ELSE Finish(Ev.w, Ev.id, Ev.err) ) /\ PostOK(Ev.post)
